@@ -30,6 +30,23 @@ TEMPLATES = [
 ]
 
 
+TEMPLATES += [
+    # property names that map onto ONE attribute name (whichever survives, it is the same one in every process)
+    {"type": "object", "title": "Clash", "properties": {"created-at": {"type": "string"}, "created_at": {"type": "integer"}, "created at": {"type": "null"},
+                                                       "content type": {"type": "string"}, "content-type": {"type": "integer"}, "content_type": {"type": "boolean"}}},
+    {"title": "U", "properties": {"a b": {}, "a-b": {"type": "string"}, "a_b": {"type": "integer"}}, "required": ["a b", "a_b"]},
+    # a type list that repeats a member; several names that are only required; many dependencies / patternProperties
+    {"title": "T", "type": ["string", "null", "integer", "string", "null"]},
+    {"type": "object", "title": "Address", "properties": {"note": {"type": "string"}}, "required": ["street", "city", "postcode", "country", "note"]},
+    {"type": "object", "title": "Ship", "dependencies": {"weight": ["unit"], "express": {"type": "object", "title": "Extra", "required": ["a"]},
+                                                      "insured": {"type": "object", "title": "Extra", "required": ["b"]}, "fragile": {"required": ["c", "d"]}},
+     "patternProperties": {"^x": {"type": "object", "title": "Extra"}, "^y": {"type": "object", "title": "extra", "minProperties": 1}}},
+    {"type": "object", "title": "When", "properties": {"when": {"oneOf": [{"type": "string", "format": "date"}, {"type": "string", "format": "date-time"},
+                                                                          {"type": "integer", "minimum": 0}, {"type": "null"}]},
+                                                      "many": {"type": "array", "items": {"anyOf": [{"type": "string"}, {"type": "string", "maxLength": 1}, {"type": "integer"}]}}}},
+]
+
+
 def run(tier, seed, replay=None):
     res = Result("C09", tier, seed)
     rng = rng_for(seed, "C09")
